@@ -51,7 +51,7 @@ def gen_case(rng, tier):
             f = rng.randrange(len(facts))
             op['expr'] = {'kind': 'instance', 'fact': f, 'base': rng.randrange(4)}
         elif facts and x < 0.7:
-            op['expr'] = {'kind': 'arith', 'fact': rng.randrange(len(facts)), 'var': rng.choice([0, 0, 1])}
+            op['expr'] = {'kind': 'arith', 'fact': rng.randrange(len(facts)), 'var': rng.choice([0, 0, 1, 2, 3, 4])}
         else:
             op['expr'] = {'kind': 'path', 'path': rng.choice(STRUCT_PATHS)}
         ops.append(op)
@@ -80,7 +80,7 @@ def expr_text(e, facts):
         return '%s instance of element(*, %s%s)' % (f['path'], t, '?' if f.get('nil') else '')
     kind = G.TYPES[f['type']][1]
     if kind in ('int', 'Decimal', 'float'):
-        return ('%s + 1.5' if e.get('var') else '%s + 1') % f['path']
+        return ['%s + 1', '%s + 1.5', 'sum(%s)', 'abs(%s)', 'round(%s)'][e.get('var') or 0] % f['path']
     um = G.union_member(f['type'], f['lex']) if kind == 'union' and not f.get('nil') else None
     if um is not None and um[1] in ('integer', 'int', 'short', 'decimal', 'double'):
         # arithmetic and value comparison on a node whose type is a union and whose value is numeric
@@ -340,7 +340,8 @@ def run_case(case, world):
                         '%s is %r' % (text, outcome[1]), feats + extra)
         # (ii-b) arithmetic and comparison use the typed value
         if sk is not None and e['kind'] == 'arith' and cfg['facts'] and (built[0] or sk != 'A') and ref == outcome \
-                and (text.endswith(' + 1') or text.endswith(' + 1.5') or text.endswith(' lt 1000000')):
+                and (text.endswith(' + 1') or text.endswith(' + 1.5') or text.endswith(' lt 1000000')
+                     or text.startswith(('sum(', 'abs(', 'round('))):
             f = cfg['facts'][e['fact'] % len(cfg['facts'])]
             stats['typed_value_checks'] += 1
             try:
@@ -357,12 +358,31 @@ def run_case(case, world):
                     extra.append('union-value-of-a-later-member')
                 violate('TYPED_VALUE', 'typed-arithmetic-raises:%s' % f['type'],
                         '%s (%r, type %s, decoded %r) raises %r' % (text, f['lex'], f['type'], decoded, outcome[:3]), feats + extra)
-            elif text.endswith(' + 1') or text.endswith(' + 1.5'):
+            elif text.endswith(' + 1') or text.endswith(' + 1.5') or text.startswith(('sum(', 'abs(', 'round(')):
                 got = items[0] if len(items) == 1 else None
                 if text.endswith(' + 1'):
                     want = decoded + 1
+                elif text.startswith('sum('):
+                    want = decoded
+                elif text.startswith('abs('):
+                    want = abs(decoded)
+                elif text.startswith('round('):
+                    import math as _m
+                    if isinstance(decoded, float):
+                        want = decoded if (_m.isinf(decoded) or _m.isnan(decoded)) else float(_m.floor(decoded + 0.5))
+                    elif isinstance(decoded, int):
+                        want = decoded
+                    else:
+                        want = (decoded + decimal.Decimal('0.5')).to_integral_value(rounding=decimal.ROUND_FLOOR)
                 else:
                     want = decoded + (1.5 if isinstance(decoded, float) else decimal.Decimal('1.5'))
+                if text.startswith(('sum(', 'abs(', 'round(')) and sk == 'A' and not f.get('xsi') and got is not None:
+                    # the functions are applied to the typed value: the result keeps its numeric class
+                    k_ = G.TYPES[f['type']][1]
+                    if k_ == 'int' and not (isinstance(got, int) and not isinstance(got, bool)):
+                        got = None if f['type'] != 'smallInt' else got
+                    elif k_ == 'Decimal' and not isinstance(got, decimal.Decimal):
+                        got = None
                 ok = got is not None and not isinstance(got, (str, bool)) and same_value(got, want) and \
                     isinstance(got, float) == isinstance(want, float)
                 if ok and sk == 'A' and f['type'] in ('float', 'double') and not f.get('xsi'):
